@@ -242,7 +242,9 @@ class Sym:
         f = _UFUNCS.get(ufunc)
         if f is None:
             raise P.Unsupported(f"numpy ufunc {ufunc.__name__} on a symbolic scalar")
-        return f(*[x.item() if isinstance(x, np.ndarray) else x for x in inputs])
+        # numpy *scalars* (np.uint32(3) + sym) are unwrapped to Python numbers, otherwise the
+        # numpy scalar's own operator would dispatch straight back here (infinite recursion)
+        return f(*[x.item() if isinstance(x, (np.ndarray, np.generic)) else x for x in inputs])
 
 
 class SymBool(Sym):
@@ -266,6 +268,19 @@ class SymBool(Sym):
 
     def __invert__(self):
         return SymBool(z3.Not(self.e))
+
+    def __xor__(self, o):
+        # bool ^ bool and bool ^ {0, 1} stay boolean (value-equal to Python's int result);
+        # bool ^ other int flips the lowest bit of that int
+        if isinstance(o, SymBool):
+            return SymBool(z3.Xor(self.e, o.e))
+        if isinstance(o, (bool, np.bool_)) or (isinstance(o, (int, np.integer)) and int(o) in (0, 1)):
+            return SymBool(z3.Xor(self.e, z3.BoolVal(bool(o))))
+        if isinstance(o, (int, np.integer)):
+            return SymInt(z3.If(self.e, z3.IntVal(int(o) ^ 1), z3.IntVal(int(o))))
+        return NotImplemented
+
+    __rxor__ = __xor__
 
     def __eq__(self, o):
         return SymBool(self.e == _tobool(o))
